@@ -20,7 +20,7 @@ func TestSim(t *testing.T) {
 		prop = "C01"
 	}
 	simcore.Main(prop, Catalogue, func(st *simcore.Stream, tier, leg string, logOn bool, res *simcore.Result) {
-		if strings.HasPrefix(leg, "quic/") {
+		if strings.HasPrefix(leg, "quic/") || leg == "udp" || leg == "udp6" || leg == "ssh" || strings.HasSuffix(leg, "/udp") || strings.HasSuffix(leg, "/ssh") {
 			// Tier B: third-party goroutines, real clock, sequential workload, outcome-level oracles
 			cryptotest.SetGlobalRandom(t, res.Seed)
 			RunTierB(prop, st, tier, leg, logOn, res)
